@@ -448,9 +448,47 @@ def run_seam(case, tmp):
     return res
 
 
+def run_entry(case, tmp):
+    """the SPEC entry point: one provider of one spec under HostContext + Cleaner, as collect builds it; write(dst)"""
+    cfg, lines = case["cfg"], case["lines"]
+    d = os.path.join(tmp, "e%d" % case["id"])
+    os.makedirs(d)
+    cl = c09.mk_cleaner(cfg)
+    noobf = list(case["no_obfuscate"])
+    if case["provider"] == "ds":
+        p = DatasourceProvider(list(lines), "etc/spec", ctx=HostContext(), cleaner=cl, no_obfuscate=noobf, no_redact=bool(case["no_redact"]))
+    else:
+        with open(os.path.join(d, "f0"), "wb") as fh:
+            fh.write("".join(l + "\n" for l in lines).encode("utf-8"))
+        tag = "C10e%d" % case["id"]
+        pt = RegistryPoint(filterable=bool(case["filterable"]), no_obfuscate=noobf, no_redact=bool(case["no_redact"]))
+        S = type("S" + tag, (SpecSet,), {"p": pt})
+        impl = simple_file("f0", context=HostContext) if case["provider"] == "file" else \
+            simple_command("/bin/cat %s" % os.path.join(d, "f0"), context=HostContext)
+        I = type("I" + tag, (S,), {"p": impl})
+        if case["filterable"]:
+            core_filters.add_filter(S.p, case["filter"], 3)
+        b = dr.Broker()
+        b[HostContext] = HostContext(root=d)
+        b["cleaner"] = cl
+        try:
+            p = I.p(b)
+        except Exception as e:
+            return {"loaded": None, "write": "<%s>" % type(e).__name__, "stored": None}
+    try:
+        loaded = list(p.content)
+    except Exception:
+        loaded = []          # nothing to collect (empty, or the grep stage matched nothing)
+    r = write_result(p, os.path.join(d, "out", "stored"), cmd=case["provider"] == "cmd")
+    r["loaded"] = loaded
+    return r
+
+
 def run_case(case, tmp, pristine=None):
     if case["kind"] == "echo":
         return run_echo(case, pristine)
+    if case["kind"] == "entry":
+        return run_entry(case, tmp)
     if case["kind"] == "seam":
         return run_seam(case, tmp)
     if case["kind"] == "file":
@@ -713,6 +751,12 @@ def glue_allow(case):
 
 def model_lines(case):
     kind = case["kind"]
+    if kind == "entry":
+        loaded = case.get("_loaded") or []
+        al = {case["filter"]: 3} if case["filterable"] else None
+        return [c09.sha_line(set([case["cfg"]["fqdn"]]) | c09.hextets(loaded)), c09.init_line(case["cfg"]),
+                "write\t1\t1\t%s\t%d\t%s%s" % (c09.enc_l(case["no_obfuscate"]), case["no_redact"], c09.enc_allow(al),
+                                                 "".join("\t" + enc(l) for l in loaded))]
     if kind == "seam":
         call = case["call"]
         return [c09.sha_line(set([case["cfg"]["fqdn"]]) | c09.hextets(re.split(r"[\n\r\x0b\x0c]", case["text"]))),
@@ -776,6 +820,8 @@ def model_maps(ans):
 def model_result(case, ans):
     """ans = the driver's answers to model_lines(case)"""
     kind = case["kind"]
+    if kind == "entry":
+        return model_write(ans[2])
     if kind == "seam":
         return {"string": None if ans[2] == "None" else dec(ans[2].split("\t")[1]) if ans[2].startswith("S\t") else "<%s>" % ans[2],
                 "smaps": model_maps(ans[3])}
@@ -808,6 +854,8 @@ def tie_view(case, res):
         return {"file": res["file"], "maps": res["maps"]}
     if kind == "seam":
         return {"string": res["string"], "smaps": res["smaps"]}
+    if kind == "entry":
+        return {"write": res["write"], "stored": res["stored"]}
     if kind == "hist":
         return {"outs": res["outs"], "maps": res["maps"]}
     if kind == "glue":
@@ -852,6 +900,36 @@ def order_violation(case, res):
     kind = case["kind"]
     if res.get("globals"):
         return "containers of insights.cleaner.* differ from their state at import after this case: %s" % ", ".join(res["globals"])
+    if kind == "entry":
+        loaded = res["loaded"]
+        if loaded is None:
+            return "the provider could not be built: %s" % res["write"]
+        # TODAY'S RULE, whatever subset of the cleaning steps is active: nothing loaded -> content error; blank-only content
+        # (every line '') -> dropped with the content error, nothing stored; anything else is stored. The one exception is
+        # today's contract too: when NO cleaning is requested for the spec at all (no_redact, no_obfuscate = exactly the six
+        # obfuscators, not filterable) _clean_content skips the cleaner and the content is stored as loaded, blank or not.
+        skip = case["no_redact"] and set(case["no_obfuscate"]) == set(ALL_OBF) and not case["filterable"]
+        blank = not any(loaded)
+        if not loaded:
+            want = "E1"
+        elif skip:
+            want = "S"
+        elif blank:
+            want = "E2"
+        else:
+            want = None          # ordinary content: stored unless every line is redacted / filtered away (the model decides)
+        if want and res["write"] != want:
+            return "spec entry point: loaded %r, no_obfuscate %r no_redact %r filterable %r -> %s, today's rule says %s" % (
+                loaded, case["no_obfuscate"], case["no_redact"], case["filterable"], res["write"], want)
+        if res["write"] in ("E1", "E2") and res["stored"] is not None:
+            return "content error %s but a file was written: %r" % (res["write"], res["stored"])
+        if res["write"] == "S" and skip and res["stored"] != "\n".join(loaded):
+            return "no cleaning requested but the stored text %r is not the loaded content %r" % (res["stored"], loaded)
+        if res["write"] == "S" and not skip and not any(res["stored"].split("\n")):
+            return "an all-blank result was stored: %r" % (res["stored"],)
+        if res["write"] not in ("S", "E1", "E2"):
+            return "write raised %s" % res["write"]
+        return None
     if kind == "seam":
         text, out = case["text"], res["string"]
         if out == c09.RAISED:
@@ -963,6 +1041,8 @@ def finding_of(case):
 
 
 def case_lines(case):
+    if case["kind"] == "entry":
+        return case["lines"]
     if case["kind"] == "seam":
         return case["text"].split("\n")
     if case["kind"] == "file":
@@ -1086,6 +1166,41 @@ def gen_seam(rng, i):
                      "allowlist": al}}
 
 
+MACHINE_ID_NO_OBF = ["hostname", "ip", "ipv6", "mac", "password"]          # as the real Specs.machine_id declares
+
+
+def entry_product():
+    """what cleaning applies to the spec x the client configuration x the content x the provider"""
+    no_obfs = [[], ["ip"], MACHINE_ID_NO_OBF, MACHINE_ID_NO_OBF + ["keyword"], ["keyword"], list(ALL_OBF) + ["extra"]]
+    confs = [{"obfuscate": 1, "ipv6": 1, "hostname": 1, "mac": 1, "keywords": ["secret"], "patterns": ["DROP"]},
+             {"obfuscate": 1, "ipv6": 0, "hostname": 1, "mac": 0, "keywords": None, "patterns": []},
+             {"obfuscate": 0, "ipv6": 0, "hostname": 0, "mac": 0, "keywords": None, "patterns": []},
+             {"obfuscate": 0, "ipv6": 0, "hostname": 0, "mac": 0, "keywords": ["secret"], "patterns": ["DROP"]},
+             {"obfuscate": 0, "ipv6": 0, "hostname": 0, "mac": 0, "keywords": None, "patterns": ["DROP"]}]
+    contents = [["", "", ""], [""], ["  ", "\t", " "], ["", "   ", ""],
+                ["@0@ myhost.example.org 10.1.2.3 secret", "", "@2@ password=abc aa:bb:cc:dd:ee:ff"], ["@0@ DROP me", ""]]
+    out = []
+    for no in no_obfs:
+        for nr in (0, 1):
+            for prov, filt in (("ds", 0), ("file", 0), ("file", 1), ("cmd", 0), ("cmd", 1)):
+                for conf in confs:
+                    for lines in contents:
+                        cfg = dict(conf)
+                        cfg["fqdn"] = "myhost.example.org"
+                        out.append({"kind": "entry", "cfg": cfg, "no_obfuscate": no, "no_redact": nr, "provider": prov,
+                                    "filterable": filt, "filter": "@", "lines": lines})
+    return out
+
+
+def gen_entries(rng, n):
+    prod = entry_product()
+    # the cells where today NO cleaning step is requested (the spec is stored as loaded) are always in
+    core = [c for c in prod if c["no_redact"] and set(c["no_obfuscate"]) == set(ALL_OBF) and not c["filterable"]]
+    rest = [c for c in prod if c not in core]
+    pick = rng.sample(core, min(len(core), max(10, n // 5))) + rng.sample(rest, min(len(rest), n))
+    return [json.loads(json.dumps(c)) for c in pick]
+
+
 def gen_any(rng, i):
     k = rng.random()
     if k < 0.08:
@@ -1171,6 +1286,7 @@ def run(chk):
     cases = [c for _, c in corpus]
     n_corpus = len(cases)
     cases += [gen_file(rng, 0, long_line=True) for _ in range(1 if quick else 3)]
+    cases += gen_entries(rng, 110 if quick else 1800)
     cases += [gen_any(rng, 0) for _ in range(n_cases)]
     for i, c in enumerate(cases):
         c["id"] = i
@@ -1179,9 +1295,12 @@ def run(chk):
     for i, c in enumerate(cases):
         if c["kind"] == "echo":
             c["_c2"] = res[seeds[0]][i]["c2"]
+        if c["kind"] == "entry":
+            c["_loaded"] = res[seeds[0]][i]["loaded"]
     model = run_model(cases, setup)
     for c in cases:
         c.pop("_c2", None)
+        c.pop("_loaded", None)
 
     # witnesses of the listed findings (corpus files that name one)
     for (fid, _), i in zip(corpus, range(n_corpus)):
@@ -1209,6 +1328,12 @@ def run(chk):
             chk.count("hist:issued", sum(len(v) for v in r0["maps"][-1].values()))
             if c["allowlists"]:
                 chk.count("hist:shared-allowlist")
+        elif c["kind"] == "entry":
+            skip = c["no_redact"] and set(c["no_obfuscate"]) == set(ALL_OBF) and not c["filterable"]
+            chk.count("entry:%s:%s:%s" % (c["provider"] + ("+filter" if c["filterable"] else ""),
+                                          "no-cleaning-requested" if skip else "cleaned",
+                                          "blank-only" if not any(c["lines"]) else "whitespace" if not any(l.strip() for l in c["lines"]) else "ordinary"))
+            chk.count("entry:write=" + r0["write"])
         elif c["kind"] == "seam":
             chk.count("seam:lines=%d" % (c["text"].count("\n") + 1))
             chk.count("seam:string=" + ("None" if r0["string"] is None else "text"))
@@ -1285,6 +1410,8 @@ def replay(data):
     res = run_seeds([case], seeds, par=2)
     if case["kind"] == "echo":
         case["_c2"] = res[seeds[0]][0]["c2"]
+    if case["kind"] == "entry":
+        case["_loaded"] = res[seeds[0]][0]["loaded"]
     model = run_model([case], c09.setup_lines())[0]
     bad, fid = False, finding_of(case)
     for s in seeds:
